@@ -18,14 +18,18 @@ from . import runs as R
 from . import vis as V
 
 
-def run_child_crashing(scn, base, files, k=None, chunk=None):
-    """fork; child runs the tool and dies at mutation k (or at chunk number `chunk`)."""
+CHUNK = 16
+
+
+def run_child_crashing(scn, base, files, k=None, chunk=None, pool_chunk=None):
+    """fork; child runs the tool and dies at mutation k (or at chunk number `chunk`, or at the `pool_chunk`-th
+    chunk of a pool file transfer)."""
     pid = os.fork()
     if pid == 0:
         try:
             import logging
             logging.disable(logging.CRITICAL)
-            state = {"n": 0, "c": 0}
+            state = {"n": 0, "c": 0, "pc": 0}
             roots = (str(base / "skel"), str(base / "mirror"), str(base / "var"))
 
             def hook(kind, paths, idx):
@@ -40,7 +44,12 @@ def run_child_crashing(scn, base, files, k=None, chunk=None):
                     if state["c"] == chunk:
                         os._exit(137)
                     state["c"] += 1
-            P.run_tool(scn, base, on_event=hook, gate=gate if chunk is not None else None, upstream_files=files)
+                if phase == "chunk" and pool_chunk is not None and path.startswith("pool/"):
+                    if state["pc"] == pool_chunk:
+                        os._exit(137)
+                    state["pc"] += 1
+            P.run_tool(scn, base, on_event=hook, gate=gate if (chunk is not None or pool_chunk is not None) else None,
+                       upstream_files=files, chunk_size=CHUNK)
         finally:
             os._exit(0)
     _, status = os.waitpid(pid, 0)
@@ -57,9 +66,10 @@ def gen_case(rng):
     return scn, {"seed": rng.getrandbits(32), "first_run": rng.random() < 0.15}
 
 
-def run_case(rep, scn, case, sb, tag, npoints):
+def run_case(rep, scn, case, sb, tag, npoints, rows=None):
     rng = random.Random(case["seed"])
     found = False
+    rows = rows if rows is not None else []
     files1 = R.files_of(scn)
     scn2 = P.Scenario([dict(r, version=P.gen_version(rng, serial=2, prev=r["version"])) for r in scn.repos],
                       nthreads=scn.nthreads)
@@ -84,16 +94,24 @@ def run_case(rep, scn, case, sb, tag, npoints):
     points = set(rng.sample(range(n_events), min(npoints, n_events)))
     for i in renames:
         points.update({i, i + 1})
-    nchunks = sum(max(1, (len(d) + 63) // 64) for p, (d, _) in files2[url].items())
+    nchunks = sum(max(1, (len(d) + CHUNK - 1) // CHUNK) for p, (d, _) in files2[url].items())
     chunk_points = rng.sample(range(max(nchunks, 1)), min(3, nchunks))
+    # inside the transfer of a pool file the new version adds: second or third chunk, i.e. a truncated file
+    new_pool = [p for p in files2[url] if p.startswith("pool/") and p not in files1[url]]
+    pool_points = [c for c in (1, 2, 4) if new_pool][: 3]
     jc0 = {"scenario": {"repos": scn.repos, "nthreads": scn.nthreads}, "case": case}
-    for kind, k in [("mutation", p) for p in sorted(points) if p < n_events] + [("chunk", c) for c in chunk_points]:
+    for kind, k in ([("mutation", p) for p in sorted(points) if p < n_events] + [("chunk", c) for c in chunk_points]
+                    + [("pool_chunk", c) for c in pool_points]):
         base = sb / f"{tag}_c"
         shutil.rmtree(base, ignore_errors=True)
         if not case["first_run"]:
             R.run_observed(scn, base, files_by_url=files1)
         st = run_child_crashing(scn2, base, files2, k=k if kind == "mutation" else None,
-                                chunk=k if kind == "chunk" else None)
+                                chunk=k if kind == "chunk" else None, pool_chunk=k if kind == "pool_chunk" else None)
+        if kind == "pool_chunk":
+            mroot = base / "mirror" / P.repo_dir(url)
+            trunc = [p for p in new_pool if (mroot / p).is_file() and (mroot / p).stat().st_size != len(files2[url][p][0])]
+            rep.count("crash.truncated_pool_file_left", len(trunc))
         o = V.VisOracle(scn.repos[0], base)
         o.old_view, o.old_refs, o.new_view, o.new_refs = old.old_view, old.old_refs, old.new_view, old.new_refs
         problem = o.check()
@@ -110,6 +128,9 @@ def run_case(rep, scn, case, sb, tag, npoints):
             continue
         # rerun(s): must converge to the uninterrupted result
         r2 = R.run_observed(scn2, base, files_by_url=files2)
+        # the rerun's pool stage + cleaning, from the tree the kill left, on Converge.pool_run
+        from .c08 import pool_row
+        pool_row(rows, jc, scn2, base, files2, {}, r2, f"rerun after kill at {kind} {k}")
         if r2.code != 0:
             found = True
             rep.violation(f"the run after a kill at {kind} {k} ({jc['crash']['event']}) exits {r2.code} ({r2.exc})",
@@ -143,12 +164,22 @@ def run(rep: C.Report):
     nscn, npts = (14, 24) if rep.tier == "quick" else (200, 400)
     sb = P.sandbox("vsb_c07_")
     found = False
+    rows = []
     try:
         for i in range(nscn):
             scn, case = gen_case(rng)
-            found |= run_case(rep, scn, case, sb, f"s{i}", npts)
+            found |= run_case(rep, scn, case, sb, f"s{i}", npts, rows)
     finally:
         shutil.rmtree(sb, ignore_errors=True)
+    header = R.POOL_HEADER + R.POOL_DEFS
+    for _, _, _, m in rows:
+        rep.count("pool_tie.reruns")
+        rep.count("pool_tie.wrong_size_leftovers_before", m["wrong_size_before"])
+        rep.count("pool_tie.stale_files_removed", m["stale"])
+        rep.count("pool_tie.queued_files", m["queued"])
+    mism, errors = C.run_mismatch_shards(rep.prop, "pool", header, "m_pool", "eq_pool", [(a, b) for _, a, b, _ in rows], shard=25)
+    C.tie_verdict(rep, "pool", mism, errors, [c for c, _, _, _ in rows], found, header=header, fn="m_pool",
+                  coq_inputs=[a for _, a, _, _ in rows])
     C.proof_verdict(rep, found)
 
 
